@@ -150,6 +150,23 @@ def simulated(tier, wd, devs_open, alpha, groups, num, depth):
     return out
 
 
+def covered(tier, wd, devs_open, alpha, groups, depth):
+    """abstract-transition cover of the as-built specification (TLC BFS under the CoverView abstraction)"""
+    out, pairs = [], 0
+    for model, retries in groups:
+        cfg = os.path.join(wd, "cover_%s_%s_%d.cfg" % (alpha, model, retries))
+        c = constants(model, retries, dev_defs(devs_open),
+                      {"MaxUpd": 4 if alpha == "events" else 1, "MaxSteps": depth, "Classes": ("<-", "Cl123"),
+                       "MonName": '"none"', "Alpha": '"%s"' % alpha})
+        vlib.write_cfg(cfg, "Spec", c, ["ExportAll"], view="CoverView")
+        hists, n = vlib.cover("MC_O_events.tla", cfg, workers=12)
+        pairs += n
+        for i, h in enumerate(hists):
+            out.append({"id": "cov_%s_%s_r%d_%d" % (alpha, model, retries, i), "model": model,
+                        "retries": retries, "hist": h})
+    return out, pairs
+
+
 def corpus():
     with open(vlib.ROOT + "/corpus/ost_abstract.json") as f:
         return json.load(f)
@@ -175,11 +192,21 @@ def run(prop, tier, replay=None):
                        if f["status"] == "open" and prop in f.get("reasons", {})})
         wits, wit_runs = asbuilt_witnesses(prop, tier, wd, mine)
     abstract += wits
+    cover_pairs = 0
     for alpha in ALPHAS[prop]:
         if alpha == "events":
             groups = GROUPS_QUICK if tier == "quick" else GROUPS_THOROUGH
+            cgroups = [("os2_cap1", 1)] if tier == "quick" else [("os2_cap1", 1), ("os2_cap2", 0), ("mixed", -1)]
+            cdepth = 7 if tier == "quick" else 10
         else:
             groups = GROUPS_CTL_QUICK if tier == "quick" else GROUPS_CTL_THOROUGH
+            cgroups = [("os2_cap1", 1)] if tier == "quick" else [("os2_cap1", 1), ("mixed", 0)]
+            cdepth = 6 if tier == "quick" else 8
+        if len(ALPHAS[prop]) > 1 and tier == "quick":
+            cdepth -= 1
+        cov, n = covered(tier, wd, devs_open, alpha, cgroups, cdepth)
+        cover_pairs += n
+        abstract += cov
         abstract += simulated(tier, wd, devs_open, alpha, groups, 60 if tier == "quick" else 1500,
                               25 if tier == "quick" else 40)
     if replay:
@@ -295,10 +322,12 @@ def run(prop, tier, replay=None):
         "traces_validated_against_impl": conf["ok"],
         "samples": samples,
         "evaluations": len(scen), "distinct_nontrivial": distinct,
-        "rule": "scenarios = committed witnesses + TLC counter-examples of the as-built spec (one per open deviation) + "
-                "TLC -simulate behaviours of Outstation.tla, each executed on the production stack; distinct = distinct "
-                "abstract input sequences of length >= 3",
+        "rule": "scenarios = committed witnesses + abstract-transition cover (TLC breadth-first under the CoverView "
+                "abstraction: one behaviour per reachable (abstract state, input) pair, maximal histories) + TLC -simulate "
+                "behaviours of Outstation.tla (+ in thorough: TLC counter-examples of the as-built spec), each executed on "
+                "the production stack; distinct = distinct abstract input sequences of length >= 3",
         "design_runs": design["runs"], "asbuilt_runs": wit_runs,
+        "abstract_transition_cover_pairs": cover_pairs,
         "trace_lines": nlines, "conformance": {"scenarios_conforming": conf["ok"], "steps_matched": conf["steps"],
                                                "divergences": conf["div"][:20], "unmodelled": len(conf["unmodelled"])},
         "monitor_violations": len(viols), "explained_by_known_findings": {k: len(v) for k, v in explained.items()},
